@@ -38,7 +38,7 @@ type pxFrame struct {
 
 type pxState struct {
 	env    Env
-	vals   map[string]*Term   // path-bound values: φ, inlined call results, keyed by frame id + register
+	vals   map[string]*Term    // path-bound values: φ, inlined call results, keyed by frame id + register
 	bseq   map[string]*ByteSeq // symbolic []byte values
 	visits map[string]int
 	steps  *int
